@@ -9,6 +9,7 @@ import (
 	"sync"
 	"sync/atomic"
 	"testing"
+	"time"
 
 	"github.com/tetratelabs/wazero"
 	"github.com/tetratelabs/wazero/api"
@@ -38,7 +39,11 @@ func runStress(sc *stressCase) string {
 	var cache wazero.CompilationCache
 	if sc.Cache {
 		cache = wazero.NewCompilationCache()
-		defer cache.Close(ctx)
+		defer func() {
+			if !abandoned {
+				cache.Close(ctx)
+			}
+		}()
 	}
 	var rts []wazero.Runtime
 	n := 1
@@ -51,7 +56,11 @@ func runStress(sc *stressCase) string {
 			rc = rc.WithCompilationCache(cache)
 		}
 		rt := wazero.NewRuntimeWithConfig(ctx, rc)
-		defer rt.Close(ctx)
+		defer func() {
+			if !abandoned {
+				rt.Close(ctx)
+			}
+		}()
 		_, err := rt.NewHostModuleBuilder("host").
 			NewFunctionBuilder().WithGoModuleFunction(api.GoModuleFunc(func(context.Context, api.Module, []uint64) {}), nil, nil).Export("block").
 			NewFunctionBuilder().WithGoModuleFunction(api.GoModuleFunc(func(context.Context, api.Module, []uint64) { panic("boom") }), nil, nil).Export("boom").
@@ -74,10 +83,11 @@ func runStress(sc *stressCase) string {
 		lives = append(lives, l)
 	}
 	var (
-		mu   sync.Mutex
-		viol string
-		stop atomic.Bool
-		wg   sync.WaitGroup
+		mu       sync.Mutex
+		viol     string
+		stop     atomic.Bool
+		wg       sync.WaitGroup
+		progress atomic.Int64
 	)
 	fail := func(format string, a ...any) {
 		mu.Lock()
@@ -109,6 +119,7 @@ func runStress(sc *stressCase) string {
 			bin := buildModule(modSpec{ID: id, Elem: -1, ImpFrom: "a", TabFrom: "a", GlobFrom: "a", MemFrom: "a"})
 			rt := rts[g%len(rts)]
 			for r := 0; r < sc.Rounds && !stop.Load(); r++ {
+				progress.Add(1)
 				if (r+g)%3 == 0 {
 					m, err := rt.InstantiateWithConfig(ctx, bin, wazero.NewModuleConfig().WithName(""))
 					if bad(err) {
@@ -163,6 +174,7 @@ func runStress(sc *stressCase) string {
 			defer guard("observer")
 			want := uint64((i+1)*1000 + 10)
 			for !stop.Load() {
+				progress.Add(1)
 				res, err := l.ExportedFunction("self").Call(ctx)
 				if err != nil || len(res) != 1 || res[0] != want {
 					fail("live instance %d: self answered %v, %v (want %d)", i, res, err, want)
@@ -182,11 +194,39 @@ func runStress(sc *stressCase) string {
 			}
 		}(i, l)
 	}
-	wg.Wait()
-	stop.Store(true)
-	owg.Wait()
-	return viol
+	// wait for the goroutines, but notice a deadlock: nobody makes progress for stallLimit
+	finished := make(chan struct{})
+	go func() {
+		wg.Wait()
+		stop.Store(true)
+		owg.Wait()
+		close(finished)
+	}()
+	last, lastAt := progress.Load(), time.Now()
+	for {
+		select {
+		case <-finished:
+			return viol
+		case <-time.After(500 * time.Millisecond):
+		}
+		if p := progress.Load(); p != last {
+			last, lastAt = p, time.Now()
+		} else if time.Since(lastAt) > stallLimit {
+			stop.Store(true)
+			// the blocked goroutines are abandoned (their deferred Close calls would block too)
+			abandoned = true
+			return fmt.Sprintf("%s: none of the %d goroutines compiling/instantiating/closing/calling made progress for %v", stallText, sc.Workers+len(lives), stallLimit)
+		}
+	}
 }
+
+const (
+	stallLimit = 20 * time.Second
+	stallText  = "deadlock"
+)
+
+// abandoned: a stress run was left with blocked goroutines; deferred closes must not run.
+var abandoned bool
 
 func TestConcurrentClose(t *testing.T) {
 	if evid.ReplayPath() != "" || os.Getenv("C09_CHILD") != "" {
@@ -219,9 +259,23 @@ func TestConcurrentClose(t *testing.T) {
 					t.Error(msg)
 					continue
 				}
+				if strings.HasPrefix(msg, stallText) {
+					// rule out machine load: the same stress case alone in a child process
+					abandoned = false
+					out, died := runIsolated(h, false)
+					if !strings.Contains(out.Violation, stallText) && died != "child timed out" {
+						evid.Incomplete("concurrent-close: %s; NOT reproduced alone (%q %q)", msg, out.Violation, died)
+						t.Error(msg)
+						return
+					}
+					msg += "; reproduced alone in a child process"
+				}
 				if msg != "" {
 					evid.Violation("concurrent-close", h, "concurrent compile/instantiate/close (%+v): %s", *sc, msg)
 					t.Error(msg)
+					if strings.HasPrefix(msg, stallText) {
+						return // goroutines of this process are blocked for good
+					}
 					continue
 				}
 				if !race {
